@@ -587,6 +587,7 @@ impl Engine for C17 {
                     env_remove: vec![],
                     timeout: std::time::Duration::from_secs(60),
                     stdout_to: None,
+                    stdin_file: None,
                 },
             );
             res.stats.evaluations += 1;
